@@ -483,7 +483,7 @@ pub fn c14(run: &mut Run) {
             Ok(())
         },
     );
-    let cases = run.tier.pick(1_600_000, 20_000_000);
+    let cases = run.tier.pick(1_600_000, 100_000_000);
     run.prop(
         "c14_wide_ints",
         "proptest: type in {i8..usize} x endpoints from f32-representable boundary values (0, +-1, 2^24 neighbours, the type's limits rounded toward zero and their neighbours) and random representable values x 8 sorted x in [0,1]; oracle: no panic, endpoints exact, |got - real| <= 0.5 (+ documented f32 slack above 2^24), between endpoints, monotone; non-trivial = a != b and 0<x<1",
@@ -500,7 +500,7 @@ pub fn c14(run: &mut Run) {
         "proptest: f32/f64 endpoints x 6 sorted x; oracle: endpoints exact, within 2 ulp of the real interpolation, between endpoints, monotone; f64 agrees to 2^-22 relative; every glam vector type (Vec2/3/3A/4, DVec2/3/4, IVec2/3/4, UVec2/3/4, I64Vec2/3/4, U64Vec2/3/4) equals the scalar implementation component-wise bit-for-bit; non-trivial = a != b and 0<x<1",
         &[],
         float_strategy(),
-        run.tier.pick(800_000, 5_000_000),
+        run.tier.pick(800_000, 25_000_000),
         float_judge,
     );
 }
